@@ -137,3 +137,49 @@ Section WireChain.
       + apply Hcond. apply in_or_app. right. left. reflexivity.
   Qed.
 End WireChain.
+
+(* C05 / C18 on the wire: the lifecycle and observed-at laws over byte-level histories *)
+From DS Require Import HistoryLifts.
+Section WireLifts.
+  Context (h : Z -> chandef -> list Z) (check : list Z -> option (gmap Z Z)).
+  Local Notation dec := (dec_or_initial).
+
+  Theorem stage_monotone_on_the_wire cf (bs : list bevent) (b0 : bevent) :
+    check_typed check -> Forall (bvalid h check cf) (b0 :: bs) -> blinked (b0 :: bs) ->
+    known_stage (o_stage (dec cf (bv_prev b0))) ->
+    forall b, In b (b0 :: bs) ->
+      stage_le (o_stage (dec cf (bv_prev b0))) (o_stage (dec cf (bv_next b))) /\ known_stage (o_stage (dec cf (bv_next b))).
+  Proof.
+    intros Hck Hv Hl Hk b Hb. destruct (abs_history h check cf _ Hck Hv Hl) as [Hv' Hl']. cbn [map] in Hv', Hl'.
+    apply (stage_monotone_history h cf (map (abs_event check cf) bs) (abs_event check cf b0) Hv' Hl' Hk (abs_event check cf b)).
+    apply elem_of_list_In. change (abs_event check cf b0 :: map (abs_event check cf) bs) with (map (abs_event check cf) (b0 :: bs)).
+    apply in_map. exact Hb.
+  Qed.
+
+  Theorem retired_forever_on_the_wire cf (bs : list bevent) (b0 : bevent) :
+    check_typed check -> Forall (bvalid h check cf) (b0 :: bs) -> blinked (b0 :: bs) ->
+    o_stage (dec cf (bv_prev b0)) = Retired ->
+    forall b, In b (b0 :: bs) -> o_stage (dec cf (bv_next b)) = Retired /\ o_defs (dec cf (bv_next b)) = o_defs (dec cf (bv_prev b0)).
+  Proof.
+    intros Hck Hv Hl Hr b Hb. destruct (abs_history h check cf _ Hck Hv Hl) as [Hv' Hl']. cbn [map] in Hv', Hl'.
+    apply (retired_forever h cf (map (abs_event check cf) bs) (abs_event check cf b0) Hv' Hl' Hr (abs_event check cf b)).
+    apply elem_of_list_In. change (abs_event check cf b0 :: map (abs_event check cf) bs) with (map (abs_event check cf) (b0 :: bs)).
+    apply in_map. exact Hb.
+  Qed.
+
+  Theorem observed_at_nondecreasing_on_the_wire cf (bs : list bevent) (b0 : bevent) p t0 :
+    check_typed check -> Forall (bvalid h check cf) (b0 :: bs) -> blinked (b0 :: bs) ->
+    tsv_time (dec cf (bv_prev b0)) p = Some t0 ->
+    (forall b, In b (b0 :: bs) -> p ∈ referenced_pairs (o_defs (dec cf (bv_next b))) /\ exists t, tsv_time (dec cf (bv_next b)) p = Some t) ->
+    forall b t, In b (b0 :: bs) -> tsv_time (dec cf (bv_next b)) p = Some t -> t0 <= t.
+  Proof.
+    intros Hck Hv Hl H0 Hall b t Hb Ht. destruct (abs_history h check cf _ Hck Hv Hl) as [Hv' Hl']. cbn [map] in Hv', Hl'.
+    apply (observed_at_nondecreasing h cf (map (abs_event check cf) bs) (abs_event check cf b0) p t0 Hv' Hl' H0) with (e := abs_event check cf b).
+    - intros e He. apply elem_of_list_In in He.
+      change (abs_event check cf b0 :: map (abs_event check cf) bs) with (map (abs_event check cf) (b0 :: bs)) in He.
+      apply in_map_iff in He. destruct He as (b' & <- & Hb'). exact (Hall b' Hb').
+    - apply elem_of_list_In. change (abs_event check cf b0 :: map (abs_event check cf) bs) with (map (abs_event check cf) (b0 :: bs)).
+      apply in_map. exact Hb.
+    - exact Ht.
+  Qed.
+End WireLifts.
